@@ -138,6 +138,9 @@ type FaultPlan struct {
 	// (a listing that fails by itself first, or whose consumer stops first, never
 	// gets to the injected one).
 	IterFaultsDelivered int
+	// IterItemsBeforeFault: how many items the listing that got the (last) injected
+	// error had delivered before it.
+	IterItemsBeforeFault int
 }
 
 // Wrap returns an Interface that records every call in t (with its arguments and
@@ -332,6 +335,7 @@ func faultSeq[T any](seq ociregistry.Seq[T], plan *FaultPlan, c *Call) ociregist
 			if n >= after {
 				stopped = true
 				plan.IterFaultsDelivered++
+				plan.IterItemsBeforeFault = n
 				yield(*new(T), ferr)
 				return false
 			}
@@ -345,6 +349,7 @@ func faultSeq[T any](seq ociregistry.Seq[T], plan *FaultPlan, c *Call) ociregist
 		if !stopped && n <= after {
 			// the listing ended before the fault position: deliver the error at the end
 			plan.IterFaultsDelivered++
+			plan.IterItemsBeforeFault = n
 			yield(*new(T), ferr)
 		}
 	}
